@@ -23,18 +23,28 @@ LEVEL_TEXT = ('Partial. Coq theorems: (a) adjoint identity over an abstract real
               'the forward rules save all regenerated from the AST; theorem: nonlinear_solve_with_state_b returns in position k of Params the '
               'implicit-function cotangent of slot k at the SAVED parameters for ANY objective.p at backward time (None for absent slots / slot 3, zero '
               'for the guess), nonlinear_solve_b the design-slot cotangent if the other slots of objective.p are unchanged since the forward pass; the '
-              'closures linearise at the actual parameters; (c) slot laws of param_index_update (regenerated table); (d) the two function-space '
+              'closures linearise at the actual parameters; (a2) all slots at once: for any descriptor passing revrule_ok (and for nonlinear_solve_with_state_b on the '
+              'regenerated tables, whatever objective.p holds) <v, dU> = sum_k <dp_k, returned cotangent of slot k> for the implicit-function tangent dU of the solution '
+              'when every differentiated slot moves (total derivative, not slot by slot); (a3) load histories on ONE Objective (model/M_C07_Hist.v: the reverse rules run '
+              'last-to-first, each reads and assigns the mutable objective.p, cotangents are pulled back to the global parameters and to the previous solution = initial '
+              'guess): the sweep never gets stuck and the accumulated cotangent pairs with d(theta) as sum_k <v_k, dU_k>, the derivative by the chained implicit function '
+              'theorem -- for histories of nonlinear_solve_with_state with NO hypothesis on objective.p, for histories of nonlinear_solve if slots 0,1,3,4,5 of objective.p '
+              'are the same in every forward pass and at the start of the sweep (the rules preserve that: invariant proved), for mixed histories under the per-step '
+              'condition; REFUTED without it (C07_design_rule_load_stepping_refuted: nonlinear_solve_b re-establishes the design slot only, so load stepping through '
+              'objective.p gives the cotangent at the LAST load; reproduced on the implementation, open finding C07-DESIGN-RESTORE); (c) slot laws of param_index_update (regenerated table); (d) the two function-space '
               'constructors are the same term after mesh.coords := coords and the re-made mesh carries every Mesh field verbatim. Not proved '
               '(hypotheses of the composition, checked on the implementation against dense linear algebra): JAX vjp is the transpose of the derivative, '
               'jvp of a gradient is linear and self-adjoint, CG at infinite radius returns a minimiser for every SPD preconditioner (streams with exact and '
               'deliberately poor preconditioners), the implicit function theorem itself (the tangent is defined by H u = -J dp); the vjp wrappers of '
-              'MechanicsInverse are only checked against dense jacfwd.')
+              'MechanicsInverse are only checked against dense jacfwd; of the forward passes only the handling of objective.p is modelled (regenerated: which parameters each '
+              'primal hands to the equation solver, nonlinear_equation_solve assigns objective.p on every path; theorem: a history of nonlinear_solve calls never changes '
+              'slots 0,1,3,4,5 of objective.p, which is what the design-history theorem asks), the records of that forward model are not yet fed into the sweep theorem by a theorem, and the ordering / accumulation of the rules by JAX is how the model reads jax.grad (checked by the history, load-stepping and trace streams).')
 TECHNIQUE = 'Coq proof (abstract algebra over Reals; computation over regenerated reference tables) + implementation-side conclusion checks against dense linear algebra'
 GEN = ['Refs_NonlinearSolve', 'CFG_drivers']
-TARGETS = ['proofs/L_C07.vo', 'proofs/L_C07_Rule.vo', 'proofs/L_C19.vo', 'model/M_C07_Refs.vo', 'model/M_C07_Rule.vo']
-COQ_FILES = ['model/M_C07_Refs.v', 'model/M_C07_Rule.v', 'model/M_C19_CFG.v', 'proofs/L_C07.v', 'proofs/L_C07_Rule.v', 'proofs/L_C19.v', 'props/P_C07.v']
+TARGETS = ['proofs/L_C07.vo', 'proofs/L_C07_Rule.vo', 'proofs/L_C07_Hist.vo', 'proofs/L_C19.vo', 'model/M_C07_Refs.vo', 'model/M_C07_Rule.vo', 'model/M_C07_Hist.vo']
+COQ_FILES = ['model/M_C07_Refs.v', 'model/M_C07_Rule.v', 'model/M_C07_Hist.v', 'model/M_C19_CFG.v', 'proofs/L_C07.v', 'proofs/L_C07_Rule.v', 'proofs/L_C07_Hist.v', 'proofs/L_C19.v', 'props/P_C07.v']
 TRUSTED = ['Coq 8.16.1 kernel + vm_compute (no native_compute)',
-           'tools/vlib/extract_drivers.py (AST -> reference/arity/unpack table, reverse-rule descriptors, restore kinds, forward-rule shapes, slot helpers / vjp closures of class Objective, normalised constructor bodies, slot table; fail closed or false flags)',
+           'tools/vlib/extract_drivers.py (AST -> reference/arity/unpack table, reverse-rule descriptors, restore kinds, forward-rule shapes, parameters each primal hands to the equation solver, objective.p assignment in nonlinear_equation_solve, slot helpers / vjp closures of class Objective, normalised constructor bodies, slot table; fail closed or false flags)',
            'static resolution covers calls through the imported optimism modules and methods of class Objective on the first parameter; other calls (jax, numpy) are not in the table',
            'harness-side sksparse shim (dense Cholesky) as preconditioner',
            'theorems are over exact reals; CG / nonlinear-solve tolerances and binary64 rounding are covered only by the conclusion checks']
@@ -44,12 +54,18 @@ ASSUMPTIONS = ['adjoint theorem: symmetry and bilinearity of the inner product, 
                'a minimiser of the quadratic model in component 0 whatever the preconditioner (Example C07_rule_nonvacuous: jointly satisfiable over R)',
                'the denotation reads the descriptors: statement order inside a rule is represented only by "objective.p is re-established before the first evaluation on the objective"',
                'the objective passed to the reverse rules is an optimism.Objective.Objective (methods resolved against that class)',
+               'history theorems: additionally <a, 0> = 0, additivity of the inner product of the global parameters, the pull-backs b_At / b_Bt of the user-side parameter '
+               'functions are transposes of their derivatives (weak form), solve_hyps at every forward solution for every right-hand side; the sweep order and the summation of '
+               'cotangents stand for jax.grad; for nonlinear_solve the objective.p of each forward pass (t_pobj) is a datum of the statement (Example C07_history_nonvacuous); '
+               'forward model: the equation solver is a section variable returning the solution',
                'jax.vjp of the gradient w.r.t. a parameter slot is the transposed parameter Jacobian (JAX); checked against jacfwd in L2']
 RULE = ('seeded parameterised energies (quadratic + quartic, 2-6 unknowns, slots 0,1,2,4, random cotangents) through jax.vjp of nonlinear_solve and '
         'nonlinear_solve_with_state, single solves and 2-3 step load histories on ONE Objective with changing boundary data/time/design and a state slot '
         'that depends on the previous solution (chained derivative w.r.t. bc, design, initial state and time offset); histories of 1-3 solves on ONE '
         'Objective with a PrecondStrategy that is exact / bulk part only / diagonal / stale (another point and parameters) / diagonally shifted / '
-        'TwoTry(bulk, exact) / the default dense one, every slot of every step against the dense implicit-function value; synthetic energies / material updates on small structured meshes for the helper VJPs; perturbed meshes for the '
+        'TwoTry(bulk, exact) / the default dense one, every slot of every step against the dense implicit-function value; load stepping with nonlinear_solve where the '
+        'boundary data is assigned to objective.p between the steps (energy couples boundary data and design): the sensitivity of the LAST solution must be right (it is), '
+        'that of the whole history is the open finding C07-DESIGN-RESTORE; synthetic energies / material updates on small structured meshes for the helper VJPs; perturbed meshes for the '
         'adjoint function space; distinct = distinct spec tuples, non-trivial = non-zero cotangent and parameter Jacobian')
 IMPORTS = ['From OV.model Require Import M_C07_Refs.', 'From OV.gen Require Import Refs_NonlinearSolve.']
 
@@ -247,6 +263,68 @@ def run_history(spec):
             bad.append('%d-step history on one Objective (%s rule): dJ/d(%s) = %r differs from the chained implicit-function derivative %r by %.3g'
                        % (K, spec['rule'], name, a.tolist(), b.tolist(), err))
     return bad, info
+
+# ============================================================================ (a3) load stepping through objective.p with the design rule
+
+def run_loadhist(spec):
+    """K solves with nonlinear_solve on ONE Objective; between the solves the boundary data is assigned to objective.p (the only way to step a load with
+    this entry point: every slot but the design lives in the objective).  The energy couples boundary data and design, so d(grad)/d(design) depends on the
+    load.  J = sum_k w_k v_k . U_k; variant 'last': w = (0,..,0,1) -- when the reverse rule of the last solve runs objective.p still holds ITS load, the
+    derivative must be right; variant 'all': w = 1 -- the reverse rules of the earlier solves run while objective.p holds the LAST load and re-establish the
+    design slot only (theorem C07_design_rule_load_stepping_refuted; finding C07-DESIGN-RESTORE)."""
+    M = mods()
+    jax, jnp, onp, Obj, Eq, NLS = M['jax'], M['jnp'], M['onp'], M['Obj'], M['Eq'], M['NLS']
+    f0, p, _ = build_energy(spec)
+    r = random.Random(spec['seed'] + 23)
+    n, K = spec['n'], spec['steps']
+    C0 = jnp.array([[r.uniform(-1, 1) for _ in range(spec.get('k0', 2))] for _ in range(n)])
+
+    def f(x, q):
+        return f0(x, q) - 0.5 * (x @ (C0 @ q[0])) * jnp.sum(jnp.sin(q[2]) + 1.5)
+    vs = [jnp.array([r.uniform(-1, 1) for _ in range(n)]) for _ in range(K)]
+    sc = [1.0] + [r.uniform(1.5, 3.0) * (-1) ** k for k in range(1, K)]
+    w = [1.0] * K if spec['variant'] == 'all' else [0.0] * (K - 1) + [1.0]
+    settings = Eq.get_settings(tol=1e-11, max_trust_iters=300)
+    g, h = jax.grad(f), jax.hessian(f)
+
+    def newton(pk, x):
+        for _ in range(40):
+            x = x - jnp.linalg.solve(h(x, pk), g(x, pk))
+        return x
+
+    def J_ref(d):
+        U, tot = jnp.zeros(n), 0.0
+        for k in range(K):
+            U = newton(Obj.Params(bc_data=p[0] * sc[k], state_data=p[1], design_data=d * (1.0 + 0.3 * k), time=p[4]), U)
+            tot = tot + w[k] * (vs[k] @ U)
+        return tot
+    try:
+        with quiet():
+            obj = Obj.Objective(f, jnp.zeros(n), p)
+
+            def J_impl(d):
+                U, tot = jnp.zeros(n), 0.0
+                for k in range(K):
+                    obj.p = Obj.param_index_update(obj.p, 0, p[0] * sc[k])          # the load step
+                    U = NLS.nonlinear_solve(obj, settings, U, d * (1.0 + 0.3 * k))
+                    tot = tot + w[k] * (vs[k] @ U)
+                return tot
+            gi = onp.atleast_1d(onp.array(jax.grad(J_impl)(p[2])))
+            gr = onp.atleast_1d(onp.array(jax.grad(J_ref)(p[2])))
+    except Exception as ex:
+        return ['reverse mode through a %d-step load history of nonlinear_solve raised %s: %s' % (K, type(ex).__name__, str(ex)[:200])], dict(error=type(ex).__name__)
+    err, sc_ = float(onp.linalg.norm(gi - gr)), float(onp.linalg.norm(gr))
+    info = dict(err=err, ref_norm=sc_, variant=spec['variant'])
+    bad = []
+    if not err <= 2e-4 * (sc_ + 1e-3):
+        if spec['variant'] == 'all':
+            bad.append('load stepping through objective.p with nonlinear_solve (%d solves, boundary data assigned to objective.p between them): dJ/d(design) = %r '
+                       'differs from the chained implicit-function derivative %r by %.3g' % (K, gi.tolist(), gr.tolist(), err))
+        else:
+            bad.append('LAST solve of a %d-step load history of nonlinear_solve: d(v.U_last)/d(design) = %r differs from the implicit-function derivative %r by %.3g'
+                       % (K, gi.tolist(), gr.tolist(), err))
+    return bad, info
+
 
 # ============================================================================ (a'') every slot of every step, exact / poor preconditioners
 
@@ -630,6 +708,16 @@ def specs_all(ctx):
     for mode in ('cartesian', 'axisymmetric'):      # meshes that carry block_maps (as every Exodus mesh does)
         out.append(dict(kind='afs', Nx=2, Ny=2, qdeg=2, order=1, mode=mode, block_maps=True, seed=r.randrange(1 << 30)))
     out.extend(precond_specs(r, ctx.n(5, 42)))
+    out.extend(loadhist_specs(r, ctx.n(2, 8)))
+    return out
+
+
+def loadhist_specs(r, count):
+    # appended after every other draw (older streams keep their cases); variants alternate: 'last' must hold, 'all' is the open finding C07-DESIGN-RESTORE
+    out = []
+    for k in range(count):
+        out.append(dict(kind='loadhist', variant=['last', 'all'][k % 2], family=['quartic', 'quad'][(k // 2) % 2], n=r.choice([2, 3, 4]),
+                        k0=r.choice([1, 2]), k1=r.choice([1, 2]), k2=r.choice([1, 2, 3]), steps=r.choice([2, 3]), seed=r.randrange(1 << 30)))
     return out
 
 
@@ -646,7 +734,7 @@ def precond_specs(r, count):
 
 def run_spec(spec):
     try:
-        return dict(reverse=run_reverse, history=run_history, precond=run_precond, helpers=run_helpers, afs=run_afs)[spec['kind']](spec)
+        return dict(reverse=run_reverse, history=run_history, precond=run_precond, loadhist=run_loadhist, helpers=run_helpers, afs=run_afs)[spec['kind']](spec)
     except Exception as ex:      # an exception escaping the implementation on an admissible case is a verdict, not a harness crash
         import traceback
         tb = traceback.extract_tb(ex.__traceback__)
@@ -662,6 +750,8 @@ def correspondence(ctx, model_ok):
         bad, info = run_spec(spec)
         ctx.count('evaluations')
         ctx.count(spec['kind'] + '_cases')
+        if spec['kind'] == 'loadhist':
+            ctx.count('loadhist_%s_%s' % (spec['variant'], 'derivative_right' if not bad else 'derivative_wrong'))
         if spec['kind'] == 'precond':
             ctx.count('precond_%s_%s_%s' % (spec['precond'], spec['rule'], 'history' if spec['steps'] > 1 else 'single'))
             ctx.count('precond_slot_cotangents_compared', len([k for k in info if k.startswith('step')]))
@@ -703,9 +793,14 @@ def search(ctx, reasons):
     poor = [x for x in specs if x['kind'] == 'precond' and x['precond'] in POOR_PRECONDS]
     poor.sort(key=lambda x: (-min(x['steps'], 2), 0 if x['rule'] == 'state' else 1))
     rest = [x for x in specs if x['kind'] not in ('history', 'precond')][:30] + [x for x in specs if x['kind'] == 'precond' and x['precond'] not in POOR_PRECONDS]
-    specs = poor[:12] + [x for x in specs if x['kind'] == 'history'] + poor[12:] + rest
+    hist = [x for x in specs if x['kind'] == 'history']
+    hist.sort(key=lambda x: (0 if x['rule'] == 'state' else 1, -x['steps']))     # two or more solves on one Objective with different parameters: state rule first
+    # if the rule tables no longer resolve (objective.p not re-established, a slot helper differentiating another slot, ...) a load history is what shows it
+    tables = any('L_C07' in str(rr.get('what')) or 'P_C07' in str(rr.get('what')) or rr.get('kind') == 'translator' for rr in reasons)
+    specs = (hist + poor[:12]) if tables else (poor[:12] + hist)
+    specs = specs + poor[12:] + rest
     for spec in specs:
-        if spec.get('block_maps'):
+        if spec.get('block_maps') or (spec['kind'] == 'loadhist' and spec['variant'] == 'all'):
             continue
         try:
             bad, info = run_spec(spec)
@@ -723,7 +818,14 @@ def finding_fails(ctx, f):
 
 
 def matches_finding(fl, f):
-    return False        # both recorded findings are fixed: any recurrence is a violation
+    # F3 / F3b are fixed: any recurrence is a violation.  C07-DESIGN-RESTORE: exactly the 'all' variant of the load-stepping stream (earlier solves of a
+    # history of nonlinear_solve whose boundary data was assigned to objective.p between the solves), wrong VALUE of the design sensitivity -- not an exception,
+    # not the 'last' variant, no other stream
+    if f.get('id') != 'C07-DESIGN-RESTORE':
+        return False
+    case = fl.get('case') or {}
+    return (fl.get('kind') == 'conclusion' and case.get('kind') == 'loadhist' and case.get('variant') == 'all' and case.get('steps', 0) >= 2
+            and 'load stepping through objective.p with nonlinear_solve' in str(fl.get('what')) and 'raised' not in str(fl.get('what')))
 
 
 def replay(ctx, path):
@@ -731,7 +833,7 @@ def replay(ctx, path):
     case = rep.get('failing_input')
     print('replay of', path)
     print(json.dumps(rep.get('reasons'), indent=1, default=str)[:3000])
-    if not case or case.get('kind') not in ('reverse', 'history', 'precond', 'helpers', 'afs'):
+    if not case or case.get('kind') not in ('reverse', 'history', 'precond', 'loadhist', 'helpers', 'afs'):
         print('no concrete failing input recorded; broken obligations:', rep.get('broken'))
         return 1
     bad, info = run_spec(case)
